@@ -18,6 +18,7 @@ import Driver.WF
 import Driver.TGen
 import Driver.Validator
 import Driver.PestOpt
+import Driver.SpecTok
 open PestTyped
 namespace Driver
 
@@ -306,6 +307,8 @@ partial def loop (uniTable : Uni) (h : IO.FS.Stream) (gs : List GrammarEntry) : 
     IO.println (Validator.run ((Sexp.parse (" ".intercalate rest)).bind toRawGrammar))
   | "pestopt" :: gid :: rest =>                         -- mirror of pest_meta's optimizer (C20): Driver/PestOpt.lean
     IO.println (match gs.find? (·.gid = gid) with | some ge => PestOpt.run ge.rawpg rest | none => "v=nogrammar")
+  | ["spectok", gid, rule, _, form, a, b, hx] =>        -- pest's token semantics `specTok` + `pruneAtomic` executed (C02): Driver/SpecTok.lean
+    IO.println (match gs.find? (·.gid = gid) with | some ge => SpecTok.run ge.pg uniTable (fuelFor ge.ng (unhex hx)) rule (mkInp form (a.toNat?.getD 0) (b.toNat?.getD 0) (unhex hx)) | none => "v=nogrammar")
   | "wf" :: gid :: rest =>                              -- static well-foundedness / theorem fuel (C11): Driver/WF.lean
     IO.println (match gs.find? (·.gid = gid) with | some ge => WF.command ge.ng rest | none => "v=nogrammar")
   | "wfraw" :: gid :: rest =>                           -- the same on the module of `#[pest_optimizer = false]` (raw AST, counted repetitions kept)
@@ -314,6 +317,15 @@ partial def loop (uniTable : Uni) (h : IO.FS.Stream) (gs : List GrammarEntry) : 
         | some o, some r => WF.command (genWith (optsConfig "00") o r) rest
         | _, _ => "v=noast")
       | none => "v=nogrammar")
+  | ["l0", profile, gid, rule, entry, form, a, b, hx] =>   -- byte-level interpreter in a build profile (C08, C09): Driver/L0.lean
+    IO.println (match gs.find? (·.gid = gid) with
+      | none => "v=nogrammar"
+      | some ge =>
+        let inp := unhex hx
+        L0.run ge.ng uniTable (fuelFor ge.ng inp) profile rule entry form (a.toNat?.getD 0) (b.toNat?.getD 0) inp
+          (fun m => "\tstk=" ++ showStack m.stk ++ "\ttrk=" ++ showTracker ge.ng m.trk)
+          (fun v => showTokens ge.ng (tokens ge.ng v))
+          (fun t => showReport ge.ng inp t))
   | [gid, rule, entry, form, a, b, hx] =>
     match gs.find? (·.gid = gid) with
     | none => IO.println "v=nogrammar"
